@@ -23,7 +23,9 @@ META = {
         "protocols after assign_cells answers every query like brute force (C14_histories_of_protocols, no side condition). "
         "get_positions_with_two_bonds / get_position_with_three_bonds rotate REGISTERED atoms without telling the cell list; since "
         "e1a3cf3 (finding C14-F6) they write the saved coordinates back, which is what the model has and why they are disciplined for all "
-        "rotation results. The model-to-source tie is (i) the ast-extracted table of call-site skeletons "
+        "rotation results. Every logged query carries the atom the returned block is USED for (q_used); the model, the static table "
+        "query_use (C14_blocks_used_where_queried) and the run-time use-site oracle all demand that a block is used for the atom it was queried "
+        "for (C14_block_reuse_misses shows a group mate in another cell loses a neighbour otherwise). The model-to-source tie is (i) the ast-extracted table of call-site skeletons "
         "(obligation C14_sites_table_matches_model breaks when any function gains, loses or reorders a cell op, coordinate write, atom "
         "creation/removal or rotation), (ii) a shape check of every observed per-call-site op trace of the monitored runs against the "
         "modelled protocol, and (iii) the brute-force monitor + invariant sweep on every query of real runs. Bond-list bookkeeping of "
@@ -58,6 +60,8 @@ THEOREMS = [
     "C14_protocol_finalize_disciplined",
     "C14_protocol_get_positions_disciplined",
     "C14_get_positions_regression",
+    "C14_blocks_used_where_queried",
+    "C14_block_reuse_misses",
     "C14_histories_of_protocols",
     "C14_history_nonvacuous",
 ]
@@ -131,7 +135,9 @@ def regenerate_sites(ctx):
         return None
     import json
 
-    return json.loads((core.VERIF / "coq" / "Generated" / "c14_sites.json").read_text())
+    js = json.loads((core.VERIF / "coq" / "Generated" / "c14_sites.json").read_text())
+    regenerate_sites.query_use = js.pop("__query_use__", [])
+    return js
 
 
 def modelled_table():
@@ -381,12 +387,27 @@ THOROUGH_INPUTS = QUICK_INPUTS + [
 ]
 
 
-def run_real(ctx, pdb, extra, keep_trace=False, extra_lines=None):
+def translated(text, shift):
+    """Rigidly translated copy of PDB text (the cell grid then cuts the molecule elsewhere)."""
+    out = []
+    for line in text.splitlines():
+        if line.startswith(("ATOM", "HETATM")):
+            xyz = [float(line[30 + 8 * i : 38 + 8 * i]) + shift[i] for i in range(3)]
+            line = f"{line[:30]}{xyz[0]:8.3f}{xyz[1]:8.3f}{xyz[2]:8.3f}{line[54:]}"
+        out.append(line)
+    return "\n".join(out) + "\n"
+
+
+def run_real(ctx, pdb, extra, keep_trace=False, extra_lines=None, shift=None):
     from pdb2pqr import main as pmain
 
     d = ctx.scratch_dir()
     out = str(d / "o.pqr")
     src = core.REPO / "tests" / "data" / pdb
+    if shift and any(shift):
+        txt = translated(src.read_text(), shift)
+        src = d / "in.pdb"
+        src.write_text(txt)
     if extra_lines:
         body = [ln.rstrip("\n") for ln in src.read_text().splitlines() if ln.startswith(("ATOM", "HETATM"))]
         src = d / "in.pdb"
@@ -406,7 +427,41 @@ def run_real(ctx, pdb, extra, keep_trace=False, extra_lines=None):
     return mon, err
 
 
+def report_use_findings(ctx, mon, pdb, extra_args, shift=None):
+    """Use-site oracle: the block of neighbours examined for atom a vs brute force around a."""
+    label = f"{pdb} {' '.join(extra_args)} translated by {tuple(shift) if shift else (0, 0, 0)}"
+    ctx.count("use-site:block-iterations", mon.uses)
+    ctx.count("use-site:rechecked-by-brute-force", mon.uses_checked)
+    if mon.use_errors:
+        ctx.notes.append(f"use-site monitor error in {label}: {mon.use_errors[0]}")
+    for site, n in mon.use_unknown.items():
+        ctx.cov["correspondence_disagreements"] += 1
+        ctx.broke("correspondence-broken", f"use site {site} of a get_near_cells block is not modelled", f"{n} iterations in {label}")
+    if mon.uses_other_atom and sum("queried for another atom" in b.get("detail", "") for b in ctx.broken) < 2:
+        ctx.cov["correspondence_disagreements"] += 1
+        f0 = next((f for f in mon.use_findings if f["why"].startswith("block was queried")), None)
+        ctx.broke(
+            "correspondence-broken",
+            "Model/CellsUse.v: every block is used for the atom it was queried for (q_used = q_atom)",
+            f"{mon.uses_other_atom} block iterations in {label} used a block that was queried for another atom" + (f", e.g. block of {f0['block_queried_for']} used for {f0['atom']}" if f0 else ""),
+        )
+    seen = set()
+    for f in mon.use_findings:
+        sig = {"site": f["site"], "condition": f["condition"]}
+        if core.sha(sig) in seen:
+            continue
+        seen.add(core.sha(sig))
+        ff = {k: (float(v) if hasattr(v, "__float__") and not isinstance(v, (str, list)) else ([float(x) for x in v] if isinstance(v, list) else v)) for k, v in f.items()}
+        ctx.fail(
+            sig,
+            f"{label}: at {f['site']} the candidates examined for {f['atom']} do not include {f['partner']} at {float(f['distance']):.3f} A (< {f['cutoff']} A): {f['why']} ({f['block_queried_for']})",
+            {"pdb": pdb, "args": extra_args, "shift": list(shift) if shift else [0.0, 0.0, 0.0], "finding": ff},
+        )
+    return len(seen)
+
+
 def report_findings(ctx, mon, pdb, extra_args, extra_lines=None):
+    report_use_findings(ctx, mon, pdb, extra_args)
     seen = set()
     allf = mon.misses + mon.ghosts + mon.latent
     for f in allf:
@@ -492,6 +547,10 @@ def run(ctx):
     sites = regenerate_sites(ctx)
     ok = core.proof_stage(ctx, "C14", THEOREMS, [])
     if sites is not None:
+        stale_blocks = [r for r in regenerate_sites.query_use if not r[2]]
+        if stale_blocks:
+            ok = False
+            ctx.broke("proof-broken", "C14_blocks_used_where_queried: a block of neighbours is not iterated where it was queried (the block used for atom a must have been queried for a)", "; ".join(f"{a}: {b}" for a, b, _ in stale_blocks))
         d = table_diff(sites)
         if d:
             ok = False
@@ -578,8 +637,34 @@ def run(ctx):
                         ctx.broke("correspondence-broken", f"real trace of {pdb} replayed in Model.Cells", f"first diff at query {next((i for i,(a,b) in enumerate(zip(got.split(';'), exp.split(';'))) if a != b), '?')}")
                 except core.CoqEvalError as e:
                     ctx.broke("correspondence-broken", f"real trace of {pdb}: model evaluation failed", str(e))
+    # --- the cell grid cuts the molecule elsewhere: translated structures (use-site oracle + monitor)
+    offs = [tuple(v if i == k else 0.0 for i in range(3)) for k in range(3) for v in (2.5, 2.6, 3.9)]
+    big = [(0.0, 2.6, 0.0), (0.0, 0.0, 3.9), (2.5, 0.0, 0.0)]
+    plan = [("1A1P.pdb", ["--ff=PARSE"], o) for o in offs] + [("1AJJ.pdb", ["--ff=AMBER"], o) for o in offs]
+    plan += [("1QBS.pdb", ["--ff=AMBER"], o) for o in [(0.0, 0.0, 0.0)] + (offs if (ctx.thorough or not ok or corr_broken) else big)]
+    if ctx.thorough:
+        plan += [("1BX8.pdb", ["--ff=CHARMM"], o) for o in offs] + [("1K1I.pdb", ["--ff=AMBER"], o) for o in offs]
+    for pdb, extra_args, sh in plan:
+        mon, err = run_real(ctx, pdb, extra_args, shift=sh)
+        ctx.count("translated-runs")
+        ctx.cov["evaluations"] += mon.queries
+        for q in range(mon.nontrivial_queries):
+            ctx._distinct.add(f"real:{pdb}:{' '.join(extra_args)}:{sh}:{q}")
+        ctx.cov["distinct_nontrivial"] = len(ctx._distinct)
+        if err:
+            ctx.notes.append(f"{pdb} {extra_args} shift {sh}: run ended with {err}")
+        report_use_findings(ctx, mon, pdb, extra_args, sh)
+        allf = mon.misses + mon.ghosts + mon.latent
+        seen = set()
+        for f in allf:
+            sig = {"site": f["site"], "cause": f["cause"], "kind": f["kind"]}
+            if core.sha(sig) in seen:
+                continue
+            seen.add(core.sha(sig))
+            ctx.fail(sig, f"real history {pdb} {' '.join(extra_args)} translated by {sh}: {f['kind']} of {f['atom']} ({f['cause']} at {f['site']}; query from {f['query']})", {"pdb": pdb, "args": extra_args, "shift": list(sh), "finding": f, "count": len(allf)})
     ctx.trusted += [
         "modelled, not verified: cells.py (hand model Model/Cells.v, tied by exact ordered-result equality on random op sequences and replayed real traces)",
+        "use-site oracle (harness/cellmon.py NearList): every get_near_cells result is tagged with its query atom; when a modelled use site starts iterating it, the subject atom is read from the caller's frame (local variable per site) and, if it is another atom or the structure changed since the query, the block is compared with brute force around the subject within the site's cutoff (own-residue / bonded partners that the site discards are not counted); run on structures translated by 2.5, 2.6, 3.9 A along each axis",
         "call-site protocols: hand model Model/CellsUse.v; tied to the source by the ast call-site table (gen/c14_sites.py, obligation C14_sites_table_matches_model) and by the shape check of observed per-site op traces; which atoms create_atom bonds a new atom to, which branch runs and that removed Atom objects are never re-inserted are oracles/assumptions",
         "caching or any other hidden state inside Cells is outside Model/Cells.v (get_near_cells is a pure function of the cell map there): covered only by the op-sequence correspondence (incl. query -> add into a NEW bordering cell -> query patterns) and the brute-force monitor",
     ]
@@ -592,8 +677,12 @@ def replay(ctx, data):
         out, bad = run_impl(case)
         print("replay: ", "FAILS " + str(bad) if bad else "passes")
         return 1 if bad else 0
-    mon, err = run_real(ctx, case["pdb"], case["args"], extra_lines=case.get("extra_lines"))
+    mon, err = run_real(ctx, case["pdb"], case["args"], extra_lines=case.get("extra_lines"), shift=case.get("shift"))
     f = case["finding"]
+    if "condition" in f:
+        hits = [g for g in mon.use_findings if g["site"] == f["site"]]
+        print(f"replay: {len(hits)} partner(s) within the cutoff not examined at {f['site']}" + (f" (e.g. {hits[0]['atom']} / {hits[0]['partner']})" if hits else ""))
+        return 1 if hits else 0
     hits = [g for g in mon.misses + mon.ghosts + mon.latent if (g["site"], g["cause"]) == (f["site"], f["cause"])]
     print(f"replay: {len(hits)} occurrences of {f['cause']} at {f['site']}")
     return 1 if hits else 0
